@@ -122,31 +122,527 @@ theorem qmatches_noGlob : ∀ (q k : Path), glob ∉ q → qmatches q k = q.isPr
     have : (g == glob) = false := by simpa using hg
     rw [this, Bool.false_or]
 
-/-! ### the tree invariant the simulation needs -/
+theorem qmatches_self {k : Path} (h : glob ∉ k) : qmatches k k = true := by
+  rw [qmatches_noGlob k k h]; simp
 
-/-- keys are prefix free and wildcard free, and every stored notification sits at its own index
-with its origin in the prefix (the cache's stated contract for origins) -/
-structure FInv (t : Target) : Prop where
-  pf : ∀ a ∈ t.tree, ∀ b ∈ t.tree, a.1 <+: b.1 → a.1 = b.1
-  noGlob : ∀ kv ∈ t.tree, glob ∉ kv.1
-  storedAt : ∀ kv ∈ t.tree, ∃ u us, kv.2.upd = u :: us ∧ updKey kv.2 u = kv.1 ∧
-    (kv.2.origin ≠ "" ∨ u.origin = "")
+/-! ### the simulation relation -/
 
-/-- input contract of a notification for the replay claim: its update paths hold no element
-named `*` and its origin, if any, is carried in the prefix -/
-def Clean (n : Noti) : Prop :=
-  ∀ u ∈ n.upd, glob ∉ updKey n u ∧ (n.origin ≠ "" ∨ u.origin = "")
+/-- what the replay claim assumes of one update of an incoming notification: its index holds no
+element named `*`, and its origin, if any, is carried in the prefix (the cache indexes updates
+without the origin of the update path: `ToStrings(path, false)`) -/
+def CleanU (n : Noti) (u : Upd) : Prop :=
+  glob ∉ updKey n u ∧ (n.origin ≠ "" ∨ u.origin = "")
 
-theorem FInv.of_tree_eq {t t' : Target} (h : t'.tree = t.tree) (hf : FInv t) : FInv t' :=
-  ⟨by rw [h]; exact hf.pf, by rw [h]; exact hf.noGlob, by rw [h]; exact hf.storedAt⟩
+def Clean (n : Noti) : Prop := ∀ u ∈ n.upd, CleanU n u
 
-theorem not_mem_of_prefix {t : Target} (hf : FInv t) {k k' : Path} {old : Noti}
-    (hl : lookup t.tree k = some old) (hp : k <+: k') (hne : k' ≠ k) : lookup t.tree k' = none := by
-  cases h : lookup t.tree k' with
+/-- a stored notification sits at its own index with its origin in the prefix -/
+def StoredAt (kv : Path × Noti) : Prop :=
+  ∃ u us, kv.2.upd = u :: us ∧ updKey kv.2 u = kv.1 ∧ (kv.2.origin ≠ "" ∨ u.origin = "")
+
+/-- everything the simulation maintains about a target's tree and the view following its feed -/
+structure GT (cfg : Cfg) (view : View) (tree : PMap Noti) : Prop where
+  unique : UniqueKeys tree
+  pf : PrefixFree tree
+  noGlob : ∀ kv ∈ tree, glob ∉ kv.1
+  storedAt : ∀ kv ∈ tree, StoredAt kv
+  r : R cfg view tree
+
+theorem GT.init (cfg : Cfg) : GT cfg [] [] :=
+  ⟨List.nodup_nil, fun a h => (by cases h), fun kv h => (by cases h), fun kv h => (by cases h),
+   ⟨List.nodup_nil, fun _ => trivial⟩⟩
+
+theorem sim_none_left {cfg : Cfg} {a : Option Noti} (h : Sim cfg a none) : a = none := by
+  cases a with
   | none => rfl
-  | some v =>
-    have := hf.pf (k, old) (mem_of_lookup_some hl) (k', v) (mem_of_lookup_some h) hp
-    exact absurd this.symm hne
+  | some v => exact h.elim
+
+/-! ### an accepted update: the view sets the same leaf -/
+
+theorem view_set {cfg : Cfg} {view : View} {tree tree' : PMap Noti} {k : Path} {n : Noti} (p : Path → Bool)
+    (hpk : p k = false) (hp : ∀ k', k' ≠ k → p k' = false → lookup tree k' = none)
+    (hR : R cfg view tree) (hk : lookup tree' k = some n)
+    (ho : ∀ k', k' ≠ k → lookup tree' k' = lookup tree k') :
+    R cfg ((k, n) :: view.filter (fun kv => p kv.1)) tree' := by
+  refine ⟨unique_cons_of_filtered p hpk hR.unique, ?_⟩
+  intro k'
+  rw [lookup_cons, lookup_filter_key]
+  by_cases hkk : k = k'
+  · subst hkk
+    simp only [if_true, hk]
+    exact Or.inl rfl
+  · have hne : k' ≠ k := fun e => hkk e.symm
+    simp only [hkk, if_false]
+    rw [ho k' hne]
+    cases hpk' : p k'
+    · simp only [Bool.false_eq_true, if_false]
+      rw [hp k' hne hpk']
+      trivial
+    · simp only [if_true]
+      exact hR.agree k'
+
+theorem evKey_eq {n : Noti} {u : Upd} {us : List Upd} (hu : n.upd = u :: us) : evKey n = updKey n u := by
+  unfold evKey; rw [hu]
+
+/-- the tree moves from `tree` to `tree'` by setting `key := n` (an overwrite or a clean add), and
+the view applies the update event -/
+theorem GT.set {cfg : Cfg} {view : View} {tree tree' : PMap Noti} {key : Path} {n : Noti} {u : Upd}
+    {us : List Upd} (hg : GT cfg view tree) (hu' : UniqueKeys tree')
+    (hd : lookup tree' key = some n) (he : ∀ k', k' ≠ key → lookup tree' k' = lookup tree k')
+    (hc : ∀ kv ∈ tree, kv.1 ≠ key → ¬ key <+: kv.1 ∧ ¬ kv.1 <+: key)
+    (hn : n.upd = u :: us) (hk : updKey n u = key) (hcl : CleanU n u) :
+    GT cfg (applyEvent view (.upd n)) tree' := by
+  have hmem : ∀ kv ∈ tree', kv = (key, n) ∨ (kv ∈ tree ∧ kv.1 ≠ key) := by
+    intro kv hkv
+    have hl := lookup_some_of_mem hu' hkv
+    by_cases hkk : kv.1 = key
+    · rw [hkk, hd] at hl
+      left
+      obtain ⟨a, b⟩ := kv
+      simp only at hkk hl
+      rw [hkk, Option.some.inj hl]
+    · rw [he _ hkk] at hl
+      exact Or.inr ⟨mem_of_lookup_some hl, hkk⟩
+  refine ⟨hu', ?_, ?_, ?_, ?_⟩
+  · intro a ha b hb hab
+    rcases hmem a ha with rfl | ⟨ha', hak⟩ <;> rcases hmem b hb with rfl | ⟨hb', hbk⟩
+    · rfl
+    · exact absurd hab (hc b hb' hbk).1
+    · exact absurd hab (hc a ha' hak).2
+    · exact hg.pf a ha' b hb' hab
+  · intro kv hkv
+    rcases hmem kv hkv with rfl | ⟨h, _⟩
+    · rw [← hk]; exact hcl.1
+    · exact hg.noGlob kv h
+  · intro kv hkv
+    rcases hmem kv hkv with rfl | ⟨h, _⟩
+    · exact ⟨u, us, hn, hk, hcl.2⟩
+    · exact hg.storedAt kv h
+  · have hek : evKey n = key := (evKey_eq hn).trans hk
+    have hnone : ∀ k', k' ≠ key → key <+: k' → lookup tree k' = none := by
+      intro k' hne hpre
+      cases h : lookup tree k' with
+      | none => rfl
+      | some v => exact absurd hpre (hc (k', v) (mem_of_lookup_some h) hne).1
+    simp only [applyEvent, hek]
+    split
+    · refine view_set (fun k' => !key.isPrefixOf k') (by simp) ?_ hg.r hd he
+      intro k' hne hp
+      have : key <+: k' := by simpa using hp
+      exact hnone k' hne this
+    · refine view_set (fun k' => k' != key) (by simp) ?_ hg.r hd he
+      intro k' hne hp
+      have : k' = key := by simpa using hp
+      exact absurd this hne
+
+/-- the leaf is overwritten but the feed is told nothing (event-driven suppression): the view
+keeps a notification with an equal value -/
+theorem GT.suppress {cfg : Cfg} {view : View} {tree : PMap Noti} {key : Path} {n old : Noti} {u ou : Upd}
+    {us ous : List Upd} (hg : GT cfg view tree) (hl : lookup tree key = some old)
+    (hn : n.upd = u :: us) (hk : updKey n u = key) (hcl : CleanU n u)
+    (hna : n.atomic = false) (hoa : old.atomic = false) (hou : old.upd = ou :: ous)
+    (hve : valueEqual ou.val u.val = true) (hed : cfg.eventDriven = true) :
+    GT cfg view (setLeaf tree key n) := by
+  have hu' := setLeaf_unique key n hg.unique
+  have hd := lookup_setLeaf_same (n := n) hg.unique hl
+  have he : ∀ k', k' ≠ key → lookup (setLeaf tree key n) k' = lookup tree k' :=
+    fun k' hne => lookup_setLeaf_other hg.unique hne
+  have hmem : ∀ kv ∈ setLeaf tree key n, kv = (key, n) ∨ (kv ∈ tree ∧ kv.1 ≠ key) := by
+    intro kv hkv
+    rcases mem_setLeaf.1 hkv with ⟨h1, h2, _⟩ | h
+    · left; obtain ⟨a, b⟩ := kv; simp only at h1 h2; rw [h1, h2]
+    · exact Or.inr h
+  have hkm := mem_of_lookup_some hl
+  refine ⟨hu', ?_, ?_, ?_, hg.r.unique, ?_⟩
+  · intro a ha b hb hab
+    have ha' : ∃ v, (a.1, v) ∈ tree := by
+      rcases hmem a ha with rfl | ⟨h, _⟩
+      · exact ⟨old, hkm⟩
+      · exact ⟨a.2, h⟩
+    have hb' : ∃ v, (b.1, v) ∈ tree := by
+      rcases hmem b hb with rfl | ⟨h, _⟩
+      · exact ⟨old, hkm⟩
+      · exact ⟨b.2, h⟩
+    obtain ⟨va, hva⟩ := ha'
+    obtain ⟨vb, hvb⟩ := hb'
+    exact hg.pf (a.1, va) hva (b.1, vb) hvb hab
+  · intro kv hkv
+    rcases hmem kv hkv with rfl | ⟨h, _⟩
+    · rw [← hk]; exact hcl.1
+    · exact hg.noGlob kv h
+  · intro kv hkv
+    rcases hmem kv hkv with rfl | ⟨h, _⟩
+    · exact ⟨u, us, hn, hk, hcl.2⟩
+    · exact hg.storedAt kv h
+  · intro k'
+    by_cases hkk : k' = key
+    · subst hkk
+      rw [hd]
+      have := hg.r.agree k'
+      rw [hl] at this
+      cases hv : lookup view k' with
+      | none => rw [hv] at this; exact this.elim
+      | some v =>
+        rw [hv] at this
+        right
+        have hhn : headVal n = u.val := by unfold headVal; rw [hn]
+        have hho : headVal old = ou.val := by unfold headVal; rw [hou]
+        rcases this with rfl | ⟨_, s2, _, s4⟩
+        · exact ⟨hed, hoa, hna, by rw [hhn, hho]; exact hve⟩
+        · refine ⟨hed, s2, hna, ?_⟩
+          rw [hhn]
+          rw [hho] at s4
+          exact valueEqual_trans _ _ _ s4 hve
+    · rw [he k' hkk]; exact hg.r.agree k'
+
+/-- the view after the feed is handed (or not handed) a leaf -/
+def afterUpd (view : View) : Option Noti → View
+  | some nd => applyEvent view (.upd nd)
+  | none => view
+
+theorem conflicts_false {tree : PMap Noti} {key : Path} (h : PMap.conflicts tree key = false) :
+    ∀ kv ∈ tree, kv.1 ≠ key → ¬ key <+: kv.1 ∧ ¬ kv.1 <+: key := by
+  intro kv hkv hne
+  unfold PMap.conflicts at h
+  have := List.any_eq_false.1 h kv hkv
+  have hne' : (kv.1 != key) = true := by simpa using hne
+  simp only [hne', Bool.and_true, Bool.or_eq_true, not_or, Bool.not_eq_true] at this
+  constructor
+  · intro hp
+    have := this.2
+    rw [List.isPrefixOf_iff_prefix.2 hp] at this
+    cases this
+  · intro hp
+    have := this.1
+    rw [List.isPrefixOf_iff_prefix.2 hp] at this
+    cases this
+
+/-- **One update.** Whatever `gnmiUpdate1` does to the tree, applying what it hands to the feed
+keeps the view in step. -/
+theorem _root_.Gnmi.Cache.Effect.sim {cfg : Cfg} {t : Target} {n : Noti} {u : Upd} {us : List Upd}
+    {out : Res × Target × Option Noti} {view : View}
+    (he : Effect cfg t n u (updKey n u) out) (hu : n.upd = u :: us) (hc : CleanU n u)
+    (hg : GT cfg view t.tree) :
+    out.1 ≠ .panic ∧ (out.1.isErr = true → out.2.2 = none) ∧ GT cfg (afterUpd view out.2.2) out.2.1.tree := by
+  cases he with
+  | rejected r t' hr h1 h2 h3 h4 =>
+    refine ⟨?_, fun _ => rfl, ?_⟩
+    · rcases hr with rfl | rfl | rfl <;> simp
+    · show GT cfg view t'.tree
+      rw [h1]; exact hg
+  | replaced t' old hk hl hts h1 h2 h3 h4 =>
+    refine ⟨by simp, fun h => by simp [Res.isErr] at h, ?_⟩
+    show GT cfg (applyEvent view (.upd n)) t'.tree
+    rw [h1]
+    refine hg.set (setLeaf_unique _ n hg.unique) (lookup_setLeaf_same hg.unique hl)
+      (fun k' hne => lookup_setLeaf_other hg.unique hne) ?_ hu rfl hc
+    intro kv hkv hne
+    have hkm := mem_of_lookup_some hl
+    constructor
+    · intro hp; exact hne (hg.pf _ hkm _ hkv hp).symm
+    · intro hp; exact hne (hg.pf _ hkv _ hkm hp)
+  | suppressed t' old ou ous hk hl hts h1 h2 h3 h4 hna hoa hou hve hed =>
+    refine ⟨by simp, fun _ => rfl, ?_⟩
+    show GT cfg view t'.tree
+    rw [h1]
+    exact hg.suppress hl hu rfl hc hna hoa hou hve hed
+  | added t' hk hl ha h2 h3 m1 m2 m3 =>
+    refine ⟨by simp, fun h => by simp [Res.isErr] at h, ?_⟩
+    show GT cfg (applyEvent view (.upd n)) t'.tree
+    have hcf : PMap.conflicts t.tree (updKey n u) = false := by
+      unfold PMap.add at ha
+      cases hcf : PMap.conflicts t.tree (updKey n u) with
+      | false => rfl
+      | true => simp [hcf] at ha
+    exact hg.set (add_unique hg.unique ha) (lookup_add_same ha)
+      (fun k' hne => lookup_add_other ha hne) (conflicts_false hcf) hu rfl hc
+  | panicOld t' old hl ho =>
+    obtain ⟨u', us', h', _⟩ := hg.storedAt _ (mem_of_lookup_some hl)
+    rw [ho] at h'; cases h'
+
+theorem gnmiUpdate1_sim {cfg : Cfg} {view : View} (now : Int) (t : Target) (n : Noti) (u : Upd) (us : List Upd)
+    (hu : n.upd = u :: us) (ht : n.target ≠ "") (hc : CleanU n u) (hg : GT cfg view t.tree) :
+    (Target.gnmiUpdate1 cfg now t n).1 ≠ .panic ∧
+    ((Target.gnmiUpdate1 cfg now t n).1.isErr = true → (Target.gnmiUpdate1 cfg now t n).2.2 = none) ∧
+    GT cfg (afterUpd view (Target.gnmiUpdate1 cfg now t n).2.2) (Target.gnmiUpdate1 cfg now t n).2.1.tree :=
+  (gnmiUpdate1_effect cfg now t n u us hu ht).sim hu hc hg
+
+/-! ### deletes: the view drops exactly the removed leaves -/
+
+theorem toDeleteEvent_stored {kv : Path × Noti} (ts : Int) (h : StoredAt kv) :
+    ∃ tg o p, toDeleteEvent? kv.2 ts = some (.del tg o p ts) ∧ (if o = "" then [] else [o]) ++ p = kv.1 := by
+  obtain ⟨u, us, hu, hk, ho⟩ := h
+  have hcond : (decide (kv.2.origin = "") && (u.origin != "")) = false := by
+    rcases ho with h | h
+    · simp [h]
+    · simp [h]
+  unfold toDeleteEvent?
+  rw [hu]
+  simp only [hcond, Bool.false_eq_true, if_false]
+  refine ⟨_, _, _, rfl, ?_⟩
+  rw [← hk]
+  unfold updKey joinKey
+  simp [List.append_assoc]
+
+theorem applyEvent_del_unique {view : View} (tg o : String) (p : Path) (ts : Int) (h : UniqueKeys view) :
+    UniqueKeys (applyEvent view (.del tg o p ts)) := unique_filter _ h
+
+theorem applyDels (ts : Int) : ∀ (rem : PMap Noti) (evs : List Event) (view : View),
+    (∀ kv ∈ rem, StoredAt kv) →
+    allSome (rem.map (fun kv => toDeleteEvent? kv.2 ts)) = some evs →
+    (UniqueKeys view → UniqueKeys (applyEvents view evs)) ∧
+    ∀ k, lookup (applyEvents view evs) k =
+      if rem.any (fun kv => qmatches kv.1 k) then none else lookup view k
+  | [], evs, view, _, hall => by
+    simp only [List.map_nil, allSome] at hall
+    cases hall
+    exact ⟨fun h => h, fun k => by simp [applyEvents]⟩
+  | kv :: rest, evs, view, hst, hall => by
+    obtain ⟨tg, o, p, he, hkey⟩ := toDeleteEvent_stored ts (hst kv (List.mem_cons_self ..))
+    simp only [List.map_cons, he, allSome, Option.map_eq_some_iff] at hall
+    obtain ⟨evs', hall', rfl⟩ := hall
+    obtain ⟨ih1, ih2⟩ := applyDels ts rest evs' (applyEvent view (.del tg o p ts))
+      (fun x hx => hst x (List.mem_cons_of_mem _ hx)) hall'
+    have hap : applyEvents view (Event.del tg o p ts :: evs') =
+        applyEvents (applyEvent view (.del tg o p ts)) evs' := rfl
+    rw [hap]
+    refine ⟨fun h => ih1 (applyEvent_del_unique tg o p ts h), ?_⟩
+    intro k
+    rw [ih2 k]
+    have happ : applyEvent view (.del tg o p ts) = view.filter (fun x => !qmatches kv.1 x.1) := by
+      simp only [applyEvent, hkey]
+    have hflt : lookup (view.filter (fun x => !qmatches kv.1 x.1)) k =
+        if (!qmatches kv.1 k) = true then lookup view k else none :=
+      lookup_filter_key (fun k' => !qmatches kv.1 k') view k
+    rw [happ, hflt]
+    simp only [List.any_cons]
+    by_cases h1 : qmatches kv.1 k = true <;> by_cases h2 : rest.any (fun x => qmatches x.1 k) = true <;>
+      simp [h1, h2]
+
+theorem GT.delete {cfg : Cfg} {view : View} {tree : PMap Noti} (hg : GT cfg view tree) (c : Noti → Bool)
+    (q : Path) (ts : Int) (evs : List Event)
+    (hall : allSome ((PMap.delete c tree q).2.map (fun kv => toDeleteEvent? kv.2 ts)) = some evs) :
+    GT cfg (applyEvents view evs) (PMap.delete c tree q).1 := by
+  have hsub1 : ∀ kv ∈ (PMap.delete c tree q).1, kv ∈ tree := fun kv h => (List.mem_filter.1 h).1
+  have hrem : ∀ kv, kv ∈ (PMap.delete c tree q).2 ↔ kv ∈ tree ∧ (qmatches q kv.1 && c kv.2) = true :=
+    fun kv => List.mem_filter
+  obtain ⟨hu, hlk⟩ := applyDels ts (PMap.delete c tree q).2 evs view
+    (fun kv h => hg.storedAt kv ((hrem kv).1 h).1) hall
+  refine ⟨delete_unique c q hg.unique, ?_, ?_, ?_, hu hg.r.unique, ?_⟩
+  · intro a ha b hb; exact hg.pf a (hsub1 a ha) b (hsub1 b hb)
+  · intro kv h; exact hg.noGlob kv (hsub1 kv h)
+  · intro kv h; exact hg.storedAt kv (hsub1 kv h)
+  · intro k
+    rw [hlk k]
+    cases hl : lookup tree k with
+    | none =>
+      have h1 : lookup (PMap.delete c tree q).1 k = none := by
+        cases h : lookup (PMap.delete c tree q).1 k with
+        | none => rfl
+        | some v => have := lookup_delete_some hg.unique h; rw [hl] at this; cases this
+      have h2 : lookup view k = none := by
+        have := hg.r.agree k; rw [hl] at this; exact sim_none_left this
+      rw [h1, h2]
+      split <;> trivial
+    | some v =>
+      have hkm := mem_of_lookup_some hl
+      cases hk : (qmatches q k && c v) with
+      | true =>
+        rw [lookup_delete_removed hg.unique hl hk]
+        have : (PMap.delete c tree q).2.any (fun kv => qmatches kv.1 k) = true :=
+          List.any_eq_true.2 ⟨(k, v), (hrem _).2 ⟨hkm, hk⟩, qmatches_self (hg.noGlob _ hkm)⟩
+        rw [this]
+        trivial
+      | false =>
+        rw [lookup_delete_kept hg.unique hl hk]
+        have : (PMap.delete c tree q).2.any (fun kv => qmatches kv.1 k) = false := by
+          cases h : (PMap.delete c tree q).2.any (fun kv => qmatches kv.1 k) with
+          | false => rfl
+          | true =>
+            exfalso
+            obtain ⟨kv, hkv, hq⟩ := List.any_eq_true.1 h
+            obtain ⟨hm, hc⟩ := (hrem kv).1 hkv
+            rw [qmatches_noGlob _ _ (hg.noGlob kv hm)] at hq
+            have hpre : kv.1 <+: k := List.isPrefixOf_iff_prefix.1 hq
+            have hek : kv.1 = k := hg.pf kv hm (k, v) hkm hpre
+            have hv : kv.2 = v := by
+              have h1 := lookup_some_of_mem hg.unique hm
+              rw [hek, hl] at h1
+              exact (Option.some.inj h1).symm
+            rw [hek, hv, hk] at hc
+            cases hc
+        rw [this]
+        simp only [Bool.false_eq_true, if_false]
+        have := hg.r.agree k
+        rw [hl] at this
+        exact this
+
+theorem gnmiRemove1_sim {cfg : Cfg} {view : View} (t : Target) (n : Noti) (hd : n.del ≠ [])
+    (ht : n.target ≠ "") (hg : GT cfg view t.tree) :
+    (Target.gnmiRemove1 t n).2.2 = false ∧
+    GT cfg (applyEvents view (Target.gnmiRemove1 t n).2.1) (Target.gnmiRemove1 t n).1.tree := by
+  match hdd : n.del with
+  | [] => exact absurd hdd hd
+  | d :: ds =>
+    obtain ⟨h1, _, _, h4, h5⟩ := gnmiRemove1_spec t n d ds hdd ht
+    have hp : (Target.gnmiRemove1 t n).2.2 = false := by
+      cases hp : (Target.gnmiRemove1 t n).2.2 with
+      | false => rfl
+      | true =>
+        obtain ⟨kv, hkv, hu⟩ := h5 hp
+        obtain ⟨u', us', h', _⟩ := hg.storedAt kv (List.mem_filter.1 hkv).1
+        rw [hu] at h'; cases h'
+    refine ⟨hp, ?_⟩
+    rw [h1]
+    exact hg.delete _ _ _ _ (h4 hp).1
+
+/-! ### lifting through a whole notification -/
+
+theorem applyEvents_append (v : View) (a b : List Event) :
+    applyEvents (applyEvents v a) b = applyEvents v (a ++ b) := by
+  simp [applyEvents, List.foldl_append]
+
+theorem applyEvents_snoc (view : View) (evs : List (List Event)) (e : Event) :
+    applyEvents view (evs ++ [[e]]).flatten = applyEvent (applyEvents view evs.flatten) e := by
+  simp [applyEvents, List.foldl_append]
+
+theorem applyEvents_group (view : View) (evs : List (List Event)) (g : List Event) :
+    applyEvents view (if g.isEmpty then evs else evs ++ [g]).flatten =
+      applyEvents (applyEvents view evs.flatten) g := by
+  split
+  · rename_i h
+    have : g = [] := by simpa using h
+    subst this; rfl
+  · simp [applyEvents, List.foldl_append]
+
+/-- what the loops of a multi-update notification maintain: the view that has applied the events
+emitted so far follows the accumulator's tree -/
+structure AccSim (cfg : Cfg) (view : View) (acc : MultiAcc) : Prop where
+  noPanic : acc.panicked = false
+  g : GT cfg (applyEvents view acc.evs.flatten) acc.t.tree
+
+theorem multiUpdates_sim {cfg : Cfg} {view : View} (now : Int) (hdr : Noti) (hh : hdr.target ≠ "") :
+    ∀ (us : List Upd) (acc : MultiAcc), (∀ u ∈ us, CleanU hdr u) → AccSim cfg view acc →
+      AccSim cfg view (multiUpdates cfg now hdr us acc)
+  | [], acc, _, h => by simpa [multiUpdates] using h
+  | u :: us, acc, hc, h => by
+    have hs := gnmiUpdate1_sim (cfg := cfg) (view := applyEvents view acc.evs.flatten) now acc.t
+      { hdr with upd := [u], del := [] } u [] rfl hh (hc u (List.mem_cons_self ..)) h.g
+    obtain ⟨s1, s2, s3⟩ := hs
+    have hp := h.noPanic
+    have hc' : ∀ u ∈ us, CleanU hdr u := fun x hx => hc x (List.mem_cons_of_mem _ hx)
+    unfold multiUpdates
+    simp only [hp, Bool.false_eq_true, if_false, s1]
+    split
+    · rename_i herr
+      apply multiUpdates_sim now hdr hh us _ hc'
+      rw [s2 herr] at s3
+      exact ⟨rfl, s3⟩
+    · split
+      · rename_i nd hnd
+        apply multiUpdates_sim now hdr hh us _ hc'
+        rw [hnd] at s3
+        change GT cfg (applyEvent _ (.upd nd)) _ at s3
+        rw [← applyEvents_snoc] at s3
+        exact ⟨rfl, s3⟩
+      · rename_i hnone
+        apply multiUpdates_sim now hdr hh us _ hc'
+        rw [hnone] at s3
+        exact ⟨rfl, s3⟩
+
+theorem multiDeletes_sim {cfg : Cfg} {view : View} (hdr : Noti) (hh : hdr.target ≠ "") :
+    ∀ (ds : List Del) (acc : MultiAcc), AccSim cfg view acc → AccSim cfg view (multiDeletes hdr ds acc)
+  | [], acc, h => by simpa [multiDeletes] using h
+  | d :: ds, acc, h => by
+    have hs := gnmiRemove1_sim (cfg := cfg) (view := applyEvents view acc.evs.flatten)
+      { acc.t with md := { acc.t.md with updated := acc.t.md.updated + 1 } }
+      { hdr with upd := [], del := [d] } (by simp) hh h.g
+    obtain ⟨s1, s2⟩ := hs
+    have hp := h.noPanic
+    unfold multiDeletes
+    simp only [hp, Bool.false_eq_true, if_false, s1]
+    apply multiDeletes_sim hdr hh ds
+    refine ⟨rfl, ?_⟩
+    rw [← applyEvents_group] at s2
+    exact s2
+
+theorem singleArm_sim {cfg : Cfg} {view : View} {r : Res × Target × Option Noti} (cnt : Int)
+    (h : r.1 ≠ .panic ∧ (r.1.isErr = true → r.2.2 = none) ∧ GT cfg (afterUpd view r.2.2) r.2.1.tree) :
+    (singleArm r cnt).1 ≠ .panic ∧
+    GT cfg (applyEvents view (singleArm r cnt).2.2.1.flatten) (singleArm r cnt).2.1.tree := by
+  obtain ⟨s1, s2, s3⟩ := h
+  unfold singleArm
+  split
+  · rename_i herr
+    rw [s2 herr] at s3
+    exact ⟨s1, s3⟩
+  · split
+    · rename_i nd hnd
+      rw [hnd] at s3
+      exact ⟨by simp, s3⟩
+    · rename_i hnone
+      rw [hnone] at s3
+      exact ⟨by simp, s3⟩
+
+/-- **The switch of `Target.GnmiUpdate`**: the view that applies the emitted events follows the
+tree, whatever the shape of the notification. -/
+theorem dispatch_sim {cfg : Cfg} {view : View} (now : Int) (t : Target) (n : Noti) (ht : n.target ≠ "")
+    (hc : Clean n) (hg : GT cfg view t.tree) :
+    (t.dispatch cfg now n).1 ≠ .panic ∧
+    GT cfg (applyEvents view (t.dispatch cfg now n).2.2.1.flatten) (t.dispatch cfg now n).2.1.tree := by
+  have first : ∀ u us, n.upd = u :: us → CleanU n u := fun u us h => hc u (by rw [h]; exact List.mem_cons_self ..)
+  unfold Target.dispatch
+  split
+  · split
+    · exact ⟨by simp, hg⟩
+    · split
+      · exact ⟨by simp, hg⟩
+      · rename_i hne
+        match hu : n.upd with
+        | [] => rw [hu] at hne; simp at hne
+        | u :: us =>
+          exact singleArm_sim _ (gnmiUpdate1_sim now t n u us hu ht (first u us hu) hg)
+  · split
+    · have ha := multiUpdates_sim (cfg := cfg) (view := view) now { n with upd := [], del := [] } ht n.upd
+        { t := t } (fun u hu => hc u hu) ⟨rfl, hg⟩
+      have hb := multiDeletes_sim (cfg := cfg) (view := view) { n with upd := [], del := [] } ht n.del _ ha
+      simp only [hb.noPanic, Bool.false_eq_true, if_false]
+      refine ⟨?_, hb.g⟩
+      split <;> simp
+    · split
+      · rename_i h1
+        match hu : n.upd with
+        | [] => rw [hu] at h1; simp at h1
+        | u :: us =>
+          exact singleArm_sim _ (gnmiUpdate1_sim now t n u us hu ht (first u us hu) hg)
+      · split
+        · rename_i h1
+          have hd : n.del ≠ [] := by
+            intro e; rw [e] at h1; simp at h1
+          have hs := gnmiRemove1_sim (cfg := cfg) (view := view)
+            { t with md := { t.md with updated := t.md.updated + 1 } } n hd ht hg
+          obtain ⟨s1, s2⟩ := hs
+          simp only [s1, Bool.false_eq_true, if_false]
+          refine ⟨by simp, ?_⟩
+          have := applyEvents_group view [] (Target.gnmiRemove1 { t with md := { t.md with updated := t.md.updated + 1 } } n).2.1
+          simp only [List.nil_append] at this
+          rw [this]
+          exact s2
+        · exact ⟨by simp, hg⟩
+
+/-- **One notification, any shape.** -/
+theorem gnmiUpdate_sim {cfg : Cfg} {view : View} (now : Int) (t : Target) (n : Noti) (ht : n.target ≠ "")
+    (hc : Clean n) (hg : GT cfg view t.tree) :
+    (t.gnmiUpdate cfg now n).1 ≠ .panic ∧
+    GT cfg (applyEvents view (t.gnmiUpdate cfg now n).2.2.flatten) (t.gnmiUpdate cfg now n).2.1.tree := by
+  obtain ⟨b, hb⟩ := tracksTimestamp?_isSome n ht
+  obtain ⟨d1, d2⟩ := dispatch_sim (cfg := cfg) (view := view) now t n ht hc hg
+  unfold Target.gnmiUpdate
+  rw [hb]
+  simp only
+  refine ⟨d1, ?_⟩
+  split
+  · rw [(checkTimestamp_frame _ n.ts).1]; exact d2
+  · exact d2
 
 end Feed
 end Gnmi
